@@ -247,7 +247,7 @@ U(id="C17.dec.lzma2", props=["C17", "C06"], file="lzma2_reader.rs", harnesses=["
   functions=[("src/lzma2_reader.rs", "get_dict_size"), ("src/lzma2_reader.rs", "get_memory_usage")],
   contract="forall dict_size:u32: no overflow; rounded dictionary is a multiple of 16 covering dict_size; estimate >= dictionary + 64 KiB chunk buffer and within 104 KiB of it")
 
-U(id="C02.lzip.hist", props=["C02", "C18", "C03", "C07"], file="lzip/writer.rs",
+U(id="C02.lzip.hist", props=["C02", "C18", "C03", "C07", "C19"], file="lzip/writer.rs",
   harnesses=["c02_lzip_hist_n4101"], thorough_harnesses=["c02_lzip_hist_n10", "c02_lzip_hist_n8193"],
   contract_stubs=PAYLOAD_LZMA_W, kind="bounded", bound="concrete histories: one write of 10 / 4101 / 8193 position-dependent bytes then finish; member size = dict = 4096",
   functions=[("src/lzip/writer.rs", "write", "Write for LZIPWriter"), ("src/lzip/writer.rs", "new", "LZIPWriter"), ("src/lzip/writer.rs", "start_new_member"),
@@ -262,7 +262,7 @@ U(id="C17.enc", props=["C17"], file="enc/lzma2_writer.rs", extra_files=["lz/hash
              ("src/lz/hc4.rs", "get_mem_usage"), ("src/lz/bt4.rs", "get_mem_usage"), ("src/lz/hash234.rs", "get_mem_usage"), ("src/lz/hash234.rs", "get_hash4_size"), ("src/enc/lzma2_writer.rs", "get_extra_size_before")],
   assumptions=["C17: 'peak heap' is represented by the allocation-size terms of the constructors (window buffer, hash2/3/4 tables, chain/tree, optimum table); the terms are tied to the constructors by reading, not by a proof (C17.sites not built)"],
   contract="forall dict in [4 KiB, 1 GiB] x mode x match finder: no overflow; KiB*1024 >= sum of the allocation terms and <= sum*9/8 + 512 KiB; get_buf_size and get_hash4_size equal their specifications")
-U(id="C17.dec.lzma", props=["C17", "C06", "C19"], file="lzma_reader.rs", harnesses=["c17_lzma_memory_usage", "c17_lzma_new_mem_limit"],
+U(id="C17.dec.lzma", props=["C17", "C06", "C19"], file="lzma_reader.rs", harnesses=["c17_lzma_memory_usage", "c17_lzma_new_mem_limit"], replayable=["c17_lzma_memory_usage"],
   contract_stubs=["LZDecoder::new -> records the requested size, returns an empty decoder; LZMADecoder::new -> records lc/lp/pb, zeroed object"],
   functions=[("src/lzma_reader.rs", "get_memory_usage"), ("src/lzma_reader.rs", "get_memory_usage_by_props"), ("src/lzma_reader.rs", "get_dict_size"),
              ("src/lzma_reader.rs", "new_mem_limit"), ("src/lzma_reader.rs", "construct1"), ("src/lzma_reader.rs", "construct2")],
@@ -324,6 +324,15 @@ U(id="C16.xz.stop", props=["C16", "C12"], file="xz/reader.rs",
   contract_stubs=["BlockHeader::parse -> index indicator => Ok(None); XZReader::parse_index_and_footer and try_start_next_stream -> ghost call log (their own contracts: C02.xz.index.r, C04.xz.hdrs, C12.xz.pad)"],
   functions=[("src/xz/reader.rs", "prepare_next_block")],
   contract="end of blocks: index+footer always verified first; single-stream mode: finished with no further access to the source (no look-ahead); multi-stream mode: exactly one look-ahead per finished stream, the next stream's blocks follow")
+U(id="C19.lzip", props=["C19", "C18"], file="lzip/writer.rs", harnesses=["c19_lzip_new_normalises"], stubs=[],
+  functions=[("src/lzip/writer.rs", "new", "LZIPWriter")],
+  contract="forall option values (u32/u64 domains): lc/lp/pb forced to 3/0/2, dictionary clamped into 4 KiB..512 MiB, member size >= dictionary size")
+U(id="C19.xz", props=["C19", "C02", "C18", "C03"], file="xz/writer.rs", features=NOSTD,
+  harnesses=["c19_xz_new_delta", "c19_xz_new_bcj_a1", "c19_xz_new_bcj_a2", "c19_xz_new_bcj_a4", "c19_xz_new_bcj_a16", "c19_xz_dict_size_byte",
+             "c02_xz_bhdr_delta", "c02_xz_bhdr_bcj_offset", "c02_xz_bhdr_bcj_zero"],
+  thorough_harnesses=["c19_xz_new_filters_and_block_size"],
+  functions=[("src/xz/writer.rs", "new", "XZWriter"), ("src/xz/writer.rs", "write_block_header"), ("src/xz/writer.rs", "encode_lzma2_dict_size")],
+  contract="forall u32 filter properties: refused, or the block header carries exactly what the reader decodes (delta distance 1..=256, BCJ start offset aligned, LE); >3 pre-filters refused; block size >= dictionary; dictionary byte = smallest representable size >= dict_size")
 
 # ---------------------------------------------------------------------------------------- quick-tier budget
 # Harnesses kept in the quick tier per unit; every other harness of the unit runs in the thorough tier only.
